@@ -71,9 +71,14 @@ def rename_cand(c, mapping):
 
 def permuted(spec, rng):
     s = copy.deepcopy(spec)
-    for key in ("tasks", "workers", "requirements", "constraints", "indicators"):
+    for key in ("tasks", "workers", "requirements", "constraints", "indicators", "buffers", "cumulative", "selections",
+                "objectives"):
         if len(s.get(key, [])) > 1:
-            rng.shuffle(s[key])
+            before = list(s[key])
+            for _ in range(6):          # a permutation that IS one (two-element lists are swapped)
+                rng.shuffle(s[key])
+                if s[key] != before:
+                    break
 
     def shuffle_commutative(c):
         # operand order of the commutative connectives is a declaration order too
@@ -98,10 +103,10 @@ def renamed(spec, rng):
     wnames = [w["name"] for w in spec.get("workers", [])]
     wpool = rng.sample(["w", "w_", "w_busy", "W0", "ü", "t_busy", "2"], len(wnames))
     mapping.update(dict(zip(wnames, wpool)))
-    for b in spec.get("buffers", []):
-        mapping[b["name"]] = rng.choice(["b", "buf fer", "b_level"])
-    for c in spec.get("cumulative", []):
-        mapping[c["name"]] = rng.choice(["c", "cum_1", "C"])
+    bn = [b["name"] for b in spec.get("buffers", [])]
+    mapping.update(dict(zip(bn, rng.sample(["b", "buf fer", "b_level", "b1", "b11"], len(bn)))))
+    cn = [c["name"] for c in spec.get("cumulative", [])]
+    mapping.update(dict(zip(cn, rng.sample(["c", "cum_1", "C", "c1"], len(cn)))))
     return gen.rename(spec, mapping), mapping
 
 
@@ -403,6 +408,19 @@ def base_specs(n, seed, tier):
             {"id": "s", "name": "s", "kind": "TaskStartAt", "task": "fill", "value": 1},
             {"id": "e", "name": "e", "kind": "TaskEndBefore", "task": "drain", "value": 5, "mode": "lax"},
             {"id": "p", "name": "p", "kind": "TaskPrecedence", "before": "x", "after": "drain", "offset": 0, "mode": "lax"}]))
+    # two buffers of the same kind accessed at the same instant by different tasks: which one is declared first must
+    # not matter (also with workers / cumulative workers / objectives declared in another order)
+    for c1, c2 in ((True, True), (False, False)):
+        out.append(fam.base(6, [fam.fx("feed", 3), fam.fx("drain", 2)], workers=[{"name": "w0"}, {"name": "w1"}],
+                            requirements=[{"task": "feed", "resource": "w0"}, {"task": "drain", "resource": "w1"}],
+                            buffers=[{"name": "stock", "concurrent": c1, "initial": 10},
+                                     {"name": "bin", "concurrent": c2, "initial": 10, "final": 15}],
+                            constraints=[
+            {"id": "l", "name": "l", "kind": "TaskLoadBuffer", "task": "feed", "buffer": "bin", "quantity": 5},
+            {"id": "u", "name": "u", "kind": "TaskUnloadBuffer", "task": "drain", "buffer": "stock", "quantity": 4},
+            {"id": "s1", "name": "s1", "kind": "TaskStartAt", "task": "feed", "value": 0},
+            {"id": "s2", "name": "s2", "kind": "TaskStartAt", "task": "drain", "value": 3}],
+            objectives=[{"kind": "Makespan"}]))
     out += collision_specs()
     return out
 
